@@ -24,6 +24,11 @@ CLAIMED = {
   note="Trusted: gowp, go/ssa, solvers; dispatcher methods ((*object).getOwnProperty etc.) are trusted contracts tied to the table obligations; SameValue as an abstract function; propertyOrder contents (enumeration order) not yet specified.",
   technique="contract-based deductive verification: ES5 8.12 as pre/postconditions over map-heap views, VCs over go/ssa discharged by z3/cvc5",
   ref="6 C07"),
+ "C08": dict(
+  text="Proof of the array kernels that every Array operation goes through: only canonical decimal strings (no sign, no leading zeros) below 2^32-1 are array indices (stringToArrayIndex, range and canonical-form clauses); a new length is accepted iff it is an integer in [0, 2^32-1] and is a RangeError otherwise (arrayUint32/isUint32, for all doubles and integer payloads); relative start/end/length arguments are clamped exactly as ES5 15.4.4.10/12 prescribe (valueToRangeIndex, rangeStartEnd, rangeStartLength as closed formulas over ToInteger); in array [[DefineOwnProperty]] (15.4.5.1) the value written to length is the validated new length, index+1 when an index at or beyond length is defined, and one more than the index of the element whose deletion failed when truncation stops early, and the truncation loop runs downwards and terminates; dispatch-table slots of the array class. The Array.prototype methods themselves (callbacks, holes, generic receivers, sort) are not covered.",
+  note="Trusted: gowp, go/ssa, solvers; strconv.ParseInt result not modelled (the canonical-form clause is proved from the guard in front of it); in arrayDefineOwnProperty the callees objectDefineOwnProperty/getOwnProperty/delete are abstracted (havoc) and the clauses are assertions at their call sites. One defect fixed (non-canonical index strings).",
+  technique="contract-based deductive verification: postconditions over closed clamp formulas, at_call assertions and loop variant in 15.4.5.1; VCs over go/ssa discharged by z3/cvc5",
+  ref="6 C08"),
  "C13": dict(
   text="Proof for all doubles that Math.round equals the ES5 15.8.2.15 definition (ties up, signed zero), the Math.pow/atan2 NaN rows that do not depend on library accuracy, and that escape() leaves exactly the B.2.1 character set unescaped; further kernels as listed in the evidence. Accuracy of transcendental functions and the URI sets (regexp, net/url) are not covered.",
   note="Trusted: gowp, go/ssa, solvers; math.Floor/Ceil/Copysign/Pow per Go documentation (assumed contracts listed in the evidence); argument arrays assumed not written during a native call.",
